@@ -143,3 +143,24 @@ PROPS['C19'] = {
     'outside': ['N outside the lattice (L: every node literal names every field; slot count follows the layout induction)'],
     'assumptions': ['stub: zeroize::optimization_barrier (inline-asm compiler barrier without semantic effect) replaced by an empty body (-Z stubbing)'],
 }
+
+PROPS['C01'] = {
+    'kani': {
+        'quick': [krun(['c01::q::', 'gen_c01::q::'], timeout=900, bounds='element addresses at a symbolic index for N <= 8 over u8,u32,u64,(u8,u16),A16(align 16),Z8(aligned ZST),(),[u8;3],[u64;3]; type-level size/alignment equalities for every N in 0..=64 and 127..1024 boundary values (u8, (u8,u16)), N <= 33 (A16, Z8), and every typenum-named 2^k, 2^k-1, 10^k up to 2^63 (u8 up to 2^60, aligned ZST above)')],
+        'thorough': [krun(['c01::', 'gen_c01::'], timeout=2400, bounds='quick + every N in 0..=1024 for u8,(u8,u16),A16; 0..=256 for [u64;3]; element addresses up to N = 65')],
+    },
+    'functions': ['GenericArray (repr(transparent))', 'GenericArrayImplEven / GenericArrayImplOdd (repr(C))', 'ArrayLength::ArrayType for UTerm/UInt<N,B0>/UInt<N,B1>', 'GenericArray::{as_slice, as_ref::<[T;N]>}', 'ConstDefault for the storage nodes'],
+    'bounds': 'K validates against rustc; L (layout induction) is the deciding step for all N.',
+    'outside': ['element types outside the list', 'K: lengths outside the lattice (covered by L\'s induction)'],
+    'assumptions': ['address identity only asserted for arrays occupying at least one byte (Kani gives zero-sized objects no stable address)'],
+}
+PROPS['C20'] = {
+    'kani': {
+        'quick': [krun(['gen_c20::q::', 'gen_c20::syntax::'], timeout=900, bounds='list form arity in {0..=8,12,16,31,32,33,64} with side-effecting element expressions (evaluation log) and a symbolic salt; tracked non-Copy elements up to arity 40; repeat forms N in {0,1,3,8}; const items; trailing commas; empty list; box_arr! all three forms')],
+        'thorough': [krun(['gen_c20::'], timeout=2400, bounds='every arity 0..=64 and 100, 128, 255, 256; repeat forms N in {0,1,2,3,5,8,16,33,64}')],
+    },
+    'functions': ['arr!', 'box_arr!', 'GenericArray::__from_vec_helper', 'GenericArray::from_array', 'const_transmute', 'GenericArray::try_from_vec'],
+    'bounds': 'K: generated invocations by arity; values (salt) and witness index symbolic. The arity -> length mapping is the compiler\'s: every binding is annotated with the expected typenum length, so a wrong mapping is a build error (exit 2 with the diagnostic).',
+    'outside': ['arities outside the lattice'],
+    'assumptions': [],
+}
